@@ -1079,7 +1079,7 @@ func main() {
 		"part E: go statements (named function / literal) whose goroutine ends by return, runtime.Goexit() at call depth 0/1/5 or in a nested closure, or a recovered panic: the registry must lose the entry each time; "+
 		"part C: stress rounds (GOMAXPROCS 1,2,4,8; yields injected in odd rounds) of goroutines from go statements and compiled code (incl. sort.Slice callbacks) with the ownership probe at every interpreted call; "+
 		"avoided input classes (replayed in separate processes of the -race build, reported under their own keys): first concurrent execution of one call expression by several goroutines (call expressions are warmed on the creator's goroutine), and - in the -race build - compiled-code goroutines exiting while unrelated ones start (identity reuse finds the stale record)")
-	limit := 60 * time.Second
+	limit := 180 * time.Second
 	if raceEnabled {
 		limit = 300 * time.Second
 	}
